@@ -700,10 +700,11 @@ impl PreferenceManager {
         // debug!("Setting ({}) {} to '{}'", if is_user_pref {"user"} else {"sys"}, key, value);
         if is_user_pref {
             // a little messy about the DecimalSeparator due immutable and mutable borrows
-            let current_decimal_separator = self.user_prefs.prefs.get("DecimalSeparator").unwrap().clone();
-            let current_decimal_separator = current_decimal_separator.as_str().unwrap();
+            // 'DecimalSeparator' only comes from prefs.yaml -- if that file could not be read, behave as if it were "Auto"
+            let current_decimal_separator = self.user_prefs.prefs.get("DecimalSeparator").and_then(|v| v.as_str()).unwrap_or("Auto").to_string();
+            let current_decimal_separator = current_decimal_separator.as_str();
             let is_decimal_separators_changed = key == "DecimalSeparator" && current_decimal_separator != value;
-            let is_language_changed = key == "Language" && self.user_prefs.prefs.get("Language").unwrap().as_str().unwrap() != value;
+            let is_language_changed = key == "Language" && self.user_prefs.prefs.get("Language").and_then(|v| v.as_str()).unwrap_or("") != value;
             self.user_prefs.prefs.insert(key.to_string(), Yaml::String(value.to_string()));
             if is_decimal_separators_changed || (current_decimal_separator == "Auto" && is_language_changed) {
                 // a little messy about the language due immutable and mutable borrows)
